@@ -457,10 +457,15 @@ def register_numpy():
             except (TypeError, UnicodeDecodeError):
                 return normalize_object(x)
         else:
+            # Hash the elements in logical (C) order, not in memory order: arrays
+            # with different contents can have the same memory image (a C-ordered
+            # array and the transpose of another one), and a copy may change the
+            # memory layout (pickling a non-contiguous view, deep-copying a
+            # broadcast view) without changing the value.
             try:
-                data = hash_buffer_hex(x.ravel(order="K").view("i1"))
+                data = hash_buffer_hex(x.ravel(order="C").view("i1"))
             except (BufferError, AttributeError, ValueError):
-                data = hash_buffer_hex(x.copy().ravel(order="K").view("i1"))
+                data = hash_buffer_hex(x.copy(order="C").ravel().view("i1"))
         return (data, x.dtype, x.shape)
 
     @normalize_token.register(np.memmap)
